@@ -3,6 +3,7 @@
 HARNESSES = {
     'mc_hash': dict(src=['mc_hash.c'], flavour='asan'),
     'mc_logmath': dict(src=['mc_logmath.c'], flavour='asan'),
+    'mc_decode': dict(src=['mc_decode.c'], flavour='asan', ldflags=['-Wl,--wrap=acmod_score']),
     'mc_jsgf': dict(src=['mc_jsgf.c'], flavour='asan', ldflags=['-Wl,--wrap=exit']),
     'mc_fsg': dict(src=['mc_fsg.c'], flavour='asan'),
     'mc_fe': dict(src=['mc_fe.c'], flavour='asan'),
@@ -80,7 +81,130 @@ def _jsgf_runs(tier, extra=()):
             for sp in spaces for i in range(n)]
 
 
+SYM3 = 'SIL,AH,G,OW,N,_'
+ALLROUTES = 'api,fsgtext,jsgf,aligntext'
+
+
+def _dec_runs(props, specs, nshard=16):
+    """specs: list of (label, extra args); each is sharded by grammar index"""
+    r = []
+    for label, extra in specs:
+        for i in range(nshard):
+            r.append(dict(h='mc_decode', label='%s-shard%d' % (label, i),
+                          args=['--props', props] + extra + ['--shard', '%d/%d' % (i, nshard)]))
+    return r
+
+
+def _c01_specs(tier):
+    sp = []
+    for conf in ('default', 'tight', 'open'):
+        sp.append(('c01-%s-enum23' % conf, ['--conf', conf, '--gset', 'enum:2:3', '--words', 'a,go,no', '--syms', SYM3,
+                                           '--segs', '2', '--routes', ALLROUTES]))
+        sp.append(('c01-%s-hand' % conf, ['--conf', conf, '--gset', 'hand', '--syms', 'SIL,AH,G,OW,T,_', '--segs', '3',
+                                         '--routes', 'api,fsgtext,jsgf']))
+    if tier == 'thorough':
+        for conf in ('default', 'tight', 'open'):
+            sp.append(('c01-%s-enum33' % conf, ['--conf', conf, '--gset', 'enum:3:3', '--words', 'a,go,no', '--syms', SYM3,
+                                               '--segs', '2', '--routes', ALLROUTES]))
+            sp.append(('c01-%s-enum23-s3' % conf, ['--conf', conf, '--gset', 'enum:2:3', '--words', 'a,go,no', '--syms', SYM3,
+                                                  '--segs', '3', '--routes', 'api,jsgf']))
+            sp.append(('c01-%s-nofiller' % conf, ['--conf', conf, '--filler', '0', '--gset', 'enum:2:3', '--words', 'a,go,no',
+                                                 '--syms', SYM3, '--segs', '2', '--routes', 'api,jsgf']))
+    return sp
+
+
+def _c03_specs(tier):
+    sp = []
+    for conf in ('default', 'open'):
+        sp.append(('c03-%s-enum22-short' % conf, ['--conf', conf, '--gset', 'enum:2:2', '--words', 'a,go', '--probs', '1,0.5',
+                                                 '--syms', 'SIL,AH,G,OW,_', '--segs', '2' if tier == 'quick' else '3', '--lens', '1,2,3',
+                                                 '--routes', ALLROUTES]))
+        sp.append(('c03-%s-enum22-s3' % conf, ['--conf', conf, '--gset', 'enum:2:2', '--words', 'a,go',
+                                              '--syms', 'SIL,AH,G,OW,_', '--segs', '3', '--lens', '2,3', '--routes', 'api']))
+        sp.append(('c03-%s-hand' % conf, ['--conf', conf, '--gset', 'hand', '--syms', 'SIL,AH,G,OW,T,_', '--segs', '3',
+                                         '--routes', 'api,jsgf']))
+    sp.append(('c03-tight-enum23', ['--conf', 'tight', '--gset', 'enum:2:3', '--words', 'a,go,no', '--syms', SYM3, '--segs', '2',
+                                    '--routes', 'api,jsgf']))
+    if tier == 'thorough':
+        for conf in ('default', 'tight', 'open'):
+            sp.append(('c03-%s-enum33' % conf, ['--conf', conf, '--gset', 'enum:3:3', '--words', 'a,go,no', '--probs', '1,0.5', '--syms', SYM3,
+                                               '--segs', '2', '--routes', 'api,jsgf']))
+            sp.append(('c03-%s-lw1' % conf, ['--conf', conf, '--lw', '1', '--wip', '0.2', '--pip', '0.5', '--gset', 'enum:2:3',
+                                            '--words', 'a,go,no', '--probs', '1,0.5', '--syms', SYM3, '--segs', '2', '--lens', '2,4', '--routes', ALLROUTES]))
+    return sp
+
+
+def _c02_specs(tier):
+    sp = []
+    variants = [('f1a1', []), ('f0a1', ['--filler', '0']), ('f1a0', ['--alt', '0']),
+                ('lw1', ['--lw', '1']), ('pen', ['--wip', '0.2', '--pip', '0.5']), ('lw1pen-f0', ['--lw', '1', '--wip', '0.2', '--pip', '0.5', '--filler', '0'])]
+    for name, extra in variants:
+        sp.append(('c02-open-%s-hand' % name, ['--conf', 'open'] + extra + ['--gset', 'hand', '--syms', 'SIL,AH,G,OW,T,_', '--segs', '3',
+                                                                          '--routes', 'api', '--patterns', '1']))
+        sp.append(('c02-open-%s-enum23' % name, ['--conf', 'open'] + extra + ['--gset', 'enum:2:3', '--words', 'a,go,no', '--probs', '1,0.5',
+                                                                            '--syms', SYM3, '--segs', '2', '--routes', 'api', '--patterns', '1'])
+                  if name in ('f1a1', 'lw1pen-f0') or tier == 'thorough' else
+                  ('c02-open-%s-enum22' % name, ['--conf', 'open'] + extra + ['--gset', 'enum:2:2', '--words', 'a,go', '--probs', '1,0.5',
+                                                                            '--syms', 'SIL,AH,G,OW,_', '--segs', '3', '--routes', 'api', '--patterns', '1']))
+    for conf in ('default', 'tight'):
+        sp.append(('c02-%s-enum23' % conf, ['--conf', conf, '--gset', 'enum:2:3', '--words', 'a,go,no', '--syms', SYM3, '--segs', '2',
+                                           '--routes', 'api', '--patterns', '1']))
+    if tier == 'thorough':
+        sp.append(('c02-open-enum33', ['--conf', 'open', '--gset', 'enum:3:3', '--words', 'a,go,no', '--syms', SYM3, '--segs', '2',
+                                       '--routes', 'api,jsgf', '--patterns', '1']))
+        sp.append(('c02-open-enum23-s3', ['--conf', 'open', '--gset', 'enum:2:3', '--words', 'a,go,no', '--probs', '1,0.5', '--syms', SYM3, '--segs', '3',
+                                          '--routes', 'api', '--patterns', '1']))
+        sp.append(('c02-open-goat', ['--conf', 'open', '--gset', 'enum:2:3', '--words', 'go,goat,at', '--syms', 'SIL,G,OW,T,AE,_', '--segs', '3',
+                                     '--routes', 'api', '--patterns', '1']))
+    return sp
+
+
+DEC_ASSUME = ['audio is represented by per-frame symbols over a small phone alphabet: senone scores are base(symbol, phone of senone) + a fixed '
+              'per-senone jitter, supplied through the interposed acmod_score; the front end, feature buffering and every search decision are real',
+              'dictionary of 14 words over the en-us phone set (one-, two-, three-phone words, shared prefixes, alternates); model en-us only',
+              'utterances of at most 3 segments / 12 frames']
+
 CHECKS = {
+    'C01': dict(
+        title='recognition results are sentences of the active grammar',
+        level='exploration',
+        runs={'quick': _dec_runs('C01', _c01_specs('quick')), 'thorough': _dec_runs('C01', _c01_specs('thorough'))},
+        budget_s={'quick': 400, 'thorough': 3000},
+        coverage=ex_cov,
+        rule='every grammar of the enumerated set (all FSGs up to 2 states/3 arcs [thorough: 3/3] over {a,go,no,eps}, canonical up to state '
+             'renaming, plus 15 hand-written ones with context fan-in/out, loops, null chains) x route {fsg_model API, FSG text, right-linear '
+             'JSGF encoding, alignment text} x every symbol-sequence utterance up to S segments x {one call; frame-sized chunks with a '
+             'partial result after each} x beams {default, tight, open}. Oracle: an NFA built from the INPUT arc list decides whether the '
+             'filler-free, base-form word sequence of hypothesis string and segmentation is accepted start-to-final (final) or is a path '
+             'prefix (partial); the reference Viterbi decides whether any complete alignment exists at all. non-trivial = a hypothesis was returned',
+        assumptions=DEC_ASSUME + TRUST,
+    ),
+    'C02': dict(
+        title='with pruning disabled the search returns the true Viterbi optimum',
+        level='exploration',
+        runs={'quick': _dec_runs('C02', _c02_specs('quick')), 'thorough': _dec_runs('C02', _c02_specs('thorough'))},
+        budget_s={'quick': 400, 'thorough': 3000},
+        coverage=ex_cov,
+        rule='grammars x utterances as for C01, beams fully open (beam=pbeam=wbeam=0, maxhmmpf=-1) x {fillers on/off, alternates on/off, '
+             'lw 1|6.5, wip/pip default|(0.2,0.5)}; oracle: token-passing Viterbi in the same integer arithmetic over the explicitly '
+             'expanded network (one HMM unit per word arc x phone x context variant, triphones from bin_mdef_phone_id_nearest, no tree, no '
+             'sharing, no history domination, no beams) must give exactly the reported score; default/tight beams: reported <= optimum '
+             '(compared when the result spans all frames). non-trivial = a hypothesis was returned',
+        assumptions=DEC_ASSUME + ['the reference expands the grammar the search runs on (after add_silence/add_alt/closure, which C13 covers)',
+                                  'context conventions granted to the decoder are those documented in fsg_lextree.c/fsg_search.c (see harness/refviterbi.h)'] + TRUST,
+    ),
+    'C03': dict(
+        title='word segmentation tiles the utterance and agrees with hypothesis and score',
+        level='exploration',
+        runs={'quick': _dec_runs('C03', _c03_specs('quick')), 'thorough': _dec_runs('C03', _c03_specs('thorough'))},
+        budget_s={'quick': 400, 'thorough': 3000},
+        coverage=ex_cov,
+        rule='grammars x routes x utterances (including 0, 1, 2, 3-frame ones) x {one call; frame-sized chunks with a partial result after '
+             'each chunk}; on every partial and final result: segments contiguous from frame 0, positive length, within the frames searched, '
+             'null segments zero-length at the preceding boundary, sum(ascr+lscr) == path score, lscr == an arc weight, hypothesis == base '
+             'forms of non-filler segments, frames returned by processing calls + end_utt == frames the front end makes of the samples',
+        assumptions=DEC_ASSUME + ['a leading null segment is reported at frame -1 (boundary before frame 0): accepted as "preceding boundary"'] + TRUST,
+    ),
     'C05': dict(
         title='JSGF compilation preserves the language of the grammar',
         level='exploration',
@@ -179,6 +303,24 @@ CHECKS = {
 PENDING_REASON = {}
 
 MANIFEST_TEXT = {
+    'C01': dict(
+        text='Bounded exhaustive exploration of the real decoder through its public API: every grammar of a canonical enumeration, reaching '
+             'the decoder by four routes, against every "audio" over a finite symbol alphabet (the only seam is the senone score table), '
+             'with default, tight and open beams and with partial results after every frame. Membership is decided by an NFA built from '
+             'the input arc list, independent of the decoder\'s own grammar object.',
+        design_ref='DESIGN.md section 2, H7 (C01)', technique='bounded exhaustive enumeration (grammars x utterances x call patterns) on the implementation with a reference NFA',
+        note='audio abstracted to symbol sequences via injected senone scores; grammars up to 3 states; utterances up to 12 frames'),
+    'C02': dict(
+        text='For every explored (grammar, utterance, configuration) the reported path score is compared with an independently computed '
+             'Viterbi optimum over the fully expanded, unshared, unpruned network; with open beams equality is exact because both sides '
+             'use the same integer arithmetic. This is the differential oracle that shape-dependent lextree, context and history code cannot satisfy by accident.',
+        design_ref='DESIGN.md section 2, H7 (C02)', technique='bounded exhaustive enumeration with an explicit-network reference Viterbi',
+        note='reference shares only model tables (mdef, tmat, dictionary) with the decoder; documented context conventions granted'),
+    'C03': dict(
+        text='Every partial and final segmentation produced in the exploration is checked for tiling, score additivity, agreement with '
+             'the hypothesis string and frame accounting, including utterances of 0-3 frames.',
+        design_ref='DESIGN.md section 2, H7 (C03)', technique='bounded exhaustive enumeration with structural invariants on every result',
+        note='as C01'),
     'C05': dict(
         text='Bounded exhaustive enumeration over JSGF programs: all grammars up to the stated tree sizes (about 3*10^5 quick, '
              '3*10^6 thorough) are compiled by the real parser and compiler and compared with an independent denotational '
